@@ -61,6 +61,10 @@ type Config struct {
 	Root              string `json:"root,omitempty"`
 	SessionId         string `json:"session_id,omitempty"`
 	ResetOnEmptyInput bool   `json:"reset_on_empty,omitempty"`
+	// StateDebug / EngineDebug: the engine's debugging switches (flag names in log lines,
+	// engine debug output)
+	StateDebug  bool `json:"state_debug,omitempty"`
+	EngineDebug bool `json:"engine_debug,omitempty"`
 	// First: the engine gets a first function (engine.WithFirst), run before control goes
 	// to the bytecode whenever an engine object starts serving
 	First *First `json:"first,omitempty"`
